@@ -13,53 +13,53 @@ Everything not listed here and not defined in the library is *unmodelled*.
 A = "arg"
 EXTERNAL = {
     # ---- memory
-    "memset":        dict(w=[(0, (A, 2, 1))]),
-    "memcpy":        dict(w=[(0, (A, 2, 1))], r=[(1, (A, 2, 1))]),
-    "memmove":       dict(w=[(0, (A, 2, 1))], r=[(1, (A, 2, 1))]),
-    "__memset_chk":  dict(w=[(0, (A, 2, 1))]),
-    "__memcpy_chk":  dict(w=[(0, (A, 2, 1))], r=[(1, (A, 2, 1))]),
-    "__memmove_chk": dict(w=[(0, (A, 2, 1))], r=[(1, (A, 2, 1))]),
-    "wmemset":       dict(w=[(0, (A, 2, 4))]),
-    "wmemcpy":       dict(w=[(0, (A, 2, 4))], r=[(1, (A, 2, 4))]),
-    "wmemmove":      dict(w=[(0, (A, 2, 4))], r=[(1, (A, 2, 4))]),
+    "memset":        dict(ret_arg=0, w=[(0, (A, 2, 1))]),
+    "memcpy":        dict(ret_arg=0, w=[(0, (A, 2, 1))], r=[(1, (A, 2, 1))]),
+    "memmove":       dict(ret_arg=0, w=[(0, (A, 2, 1))], r=[(1, (A, 2, 1))]),
+    "__memset_chk":  dict(ret_arg=0, w=[(0, (A, 2, 1))]),
+    "__memcpy_chk":  dict(ret_arg=0, w=[(0, (A, 2, 1))], r=[(1, (A, 2, 1))]),
+    "__memmove_chk": dict(ret_arg=0, w=[(0, (A, 2, 1))], r=[(1, (A, 2, 1))]),
+    "wmemset":       dict(ret_arg=0, w=[(0, (A, 2, 4))]),
+    "wmemcpy":       dict(ret_arg=0, w=[(0, (A, 2, 4))], r=[(1, (A, 2, 4))]),
+    "wmemmove":      dict(ret_arg=0, w=[(0, (A, 2, 4))], r=[(1, (A, 2, 4))]),
     "explicit_bzero": dict(w=[(0, (A, 1, 1))], barrier=True),
     "memset_explicit": dict(w=[(0, (A, 2, 1))], barrier=True),
     "bzero":         dict(w=[(0, (A, 1, 1))]),
-    "memchr":        dict(r=[(0, (A, 2, 1))]),
-    "memrchr":       dict(r=[(0, (A, 2, 1))]),
+    "memchr":        dict(ret_arg=0, r=[(0, (A, 2, 1))]),
+    "memrchr":       dict(ret_arg=0, r=[(0, (A, 2, 1))]),
     "memcmp":        dict(r=[(0, (A, 2, 1)), (1, (A, 2, 1))]),
     "malloc":        dict(alloc=True),
     "calloc":        dict(alloc=True),
-    "realloc":       dict(alloc=True, frees=0),
+    "realloc":       dict(alloc=True, frees=0, ret_arg=0),
     "free":          dict(frees=0),
     # ---- strings (readers)
     "strlen":        dict(r=[(0, ("nul",))]),
     "strnlen":       dict(r=[(0, ("argnul", 1, 1))], ret_le=1),
     "wcslen":        dict(r=[(0, ("nul",))]),
     "wcsnlen":       dict(r=[(0, ("argnul", 1, 4))], ret_le=1),
-    "strchr":        dict(r=[(0, ("nul",))]),
-    "strrchr":       dict(r=[(0, ("nul",))]),
-    "strstr":        dict(r=[(0, ("nul",)), (1, ("nul",))]),
+    "strchr":        dict(ret_arg=0, r=[(0, ("nul",))]),
+    "strrchr":       dict(ret_arg=0, r=[(0, ("nul",))]),
+    "strstr":        dict(ret_arg=0, r=[(0, ("nul",)), (1, ("nul",))]),
     "strcmp":        dict(r=[(0, ("nul",)), (1, ("nul",))]),
     "strncmp":       dict(r=[(0, ("argnul", 2, 1)), (1, ("argnul", 2, 1))]),
     "strcoll":       dict(r=[(0, ("nul",)), (1, ("nul",))]),
     "wcscoll":       dict(r=[(0, ("nul",)), (1, ("nul",))]),
     "wcscmp":        dict(r=[(0, ("nul",)), (1, ("nul",))]),
-    "wcschr":        dict(r=[(0, ("nul",))]),
+    "wcschr":        dict(ret_arg=0, r=[(0, ("nul",))]),
     "strspn":        dict(r=[(0, ("nul",)), (1, ("nul",))]),
     "strcspn":       dict(r=[(0, ("nul",)), (1, ("nul",))]),
-    "strpbrk":       dict(r=[(0, ("nul",)), (1, ("nul",))]),
+    "strpbrk":       dict(ret_arg=0, r=[(0, ("nul",)), (1, ("nul",))]),
     "atoi":          dict(r=[(0, ("nul",))]),
     "strtol":        dict(r=[(0, ("nul",))], w=[(1, ("const", 8))]),
     "strtoul":       dict(r=[(0, ("nul",))], w=[(1, ("const", 8))]),
     # ---- strings (writers)
-    "strcpy":        dict(w=[(0, ("unb",))], r=[(1, ("nul",))]),
-    "strncpy":       dict(w=[(0, (A, 2, 1))], r=[(1, ("argnul", 2, 1))]),
-    "strcat":        dict(w=[(0, ("unb",))], r=[(0, ("nul",)), (1, ("nul",))]),
-    "strncat":       dict(w=[(0, ("unb",))], r=[(0, ("nul",)), (1, ("argnul", 2, 1))]),
-    "wcscpy":        dict(w=[(0, ("unb",))], r=[(1, ("nul",))]),
-    "wcsncpy":       dict(w=[(0, (A, 2, 4))], r=[(1, ("argnul", 2, 4))]),
-    "wcscat":        dict(w=[(0, ("unb",))], r=[(0, ("nul",)), (1, ("nul",))]),
+    "strcpy":        dict(ret_arg=0, w=[(0, ("unb",))], r=[(1, ("nul",))]),
+    "strncpy":       dict(ret_arg=0, w=[(0, (A, 2, 1))], r=[(1, ("argnul", 2, 1))]),
+    "strcat":        dict(ret_arg=0, w=[(0, ("unb",))], r=[(0, ("nul",)), (1, ("nul",))]),
+    "strncat":       dict(ret_arg=0, w=[(0, ("unb",))], r=[(0, ("nul",)), (1, ("argnul", 2, 1))]),
+    "wcscpy":        dict(ret_arg=0, w=[(0, ("unb",))], r=[(1, ("nul",))]),
+    "wcsncpy":       dict(ret_arg=0, w=[(0, (A, 2, 4))], r=[(1, ("argnul", 2, 4))]),
+    "wcscat":        dict(ret_arg=0, w=[(0, ("unb",))], r=[(0, ("nul",)), (1, ("nul",))]),
     "sprintf":       dict(gram="printf", w=[(0, ("unb",))], r=[(1, ("nul",))], fmt=1),
     "snprintf":      dict(gram="printf", w=[(0, (A, 1, 1))], r=[(2, ("nul",))], fmt=2),
     "vsprintf":      dict(gram="printf", w=[(0, ("unb",))], r=[(1, ("nul",))], fmt=1, va=2),
@@ -83,7 +83,7 @@ EXTERNAL = {
     "__errno_location": {},
     "abs": {}, "labs": {},
     # ---- stdio / time / env
-    "fgets":         dict(w=[(0, (A, 1, 1))]),
+    "fgets":         dict(ret_arg=0, w=[(0, (A, 1, 1))]),
     "fputs":         dict(r=[(0, ("nul",))]),
     "fputc": {}, "putc": {}, "putchar": {}, "fflush": {}, "ferror": {}, "feof": {}, "fileno": {},
     "fwrite":        dict(r=[(0, (A, 2, 1))]),
@@ -94,10 +94,10 @@ EXTERNAL = {
     "tmpnam":        dict(w=[(0, ("const", 20))]),
     "getenv":        dict(r=[(0, ("nul",))]),
     "secure_getenv": dict(r=[(0, ("nul",))]),
-    "asctime_r":     dict(w=[(1, ("const", 26))], r=[(0, ("const", 56))]),
-    "ctime_r":       dict(w=[(1, ("const", 26))], r=[(0, ("const", 8))]),
-    "gmtime_r":      dict(w=[(1, ("const", 56))], r=[(0, ("const", 8))]),
-    "localtime_r":   dict(w=[(1, ("const", 56))], r=[(0, ("const", 8))]),
+    "asctime_r":     dict(ret_arg=1, w=[(1, ("const", 26))], r=[(0, ("const", 56))]),
+    "ctime_r":       dict(ret_arg=1, w=[(1, ("const", 26))], r=[(0, ("const", 8))]),
+    "gmtime_r":      dict(ret_arg=1, w=[(1, ("const", 56))], r=[(0, ("const", 8))]),
+    "localtime_r":   dict(ret_arg=1, w=[(1, ("const", 56))], r=[(0, ("const", 8))]),
     "strerror_r":    dict(w=[(1, (A, 2, 1))]),
     "vprintf":       dict(r=[(0, ("nul",))], fmt=0, va=1, gram="printf"),
     "vfprintf":      dict(r=[(1, ("nul",))], fmt=1, va=2, gram="printf"),
@@ -128,7 +128,7 @@ EXTERNAL = {
     "qsort":         dict(w=[(0, ("mul", 1, 2))], r=[(0, ("mul", 1, 2))], callback=3),
     "setlocale":     dict(r=[(1, ("nul",))]),
     "strerror": {},
-    "wcsstr":        dict(r=[(0, ("nul",)), (1, ("nul",))]),
+    "wcsstr":        dict(ret_arg=0, r=[(0, ("nul",)), (1, ("nul",))]),
 }
 
 # libc routines that use hidden static state (not reentrant)
